@@ -165,6 +165,17 @@ pub fn families(prop: &str, tier: Tier) -> Vec<Cfg> {
                 a.dev = 1;
                 v.push(a);
             }
+            // the broker changes its Receive Maximum between two connections of one session
+            let mut c = Cfg::base("C06-receive-maximum-changes-on-resume");
+            c.props = vec!["C06"];
+            c.ops = vec![OpK::Pub1, OpK::Pub2, OpK::Poll, OpK::DropConn];
+            c.io = IoMenu::benign();
+            c.broker.receive_max = vec![Some(2), Some(1), Some(3)];
+            c.max_ops = if q { 7 } else { 9 };
+            c.max_conns = 2;
+            c.max_reqs = if q { 3 } else { 4 };
+            c.dev = 0;
+            v.push(c);
             // local limit: Receive Maximum above / at the local window of 8
             let mut b = Cfg::base("C06-receive-maximum-9-and-65535");
             b.props = vec!["C06"];
